@@ -7,9 +7,9 @@ from .C13 import queries as c13_queries
 META = {
     "level": "other",
     "explanation": "Composition decided by CBMC: the real crypt_gensalt_rn + gensalt_<m>_rn (symbolic count, symbolic random bytes) followed by the real crypt_<m>_rn of the selected method (havoc digest/KDF kernels, stretch loops cut) on the generated setting: it passes check_badsalt_chars, selects the same table entry through get_hashfn, hashing succeeds and the result has the setting as a literal prefix. For the yescrypt family the real yescrypt_r parameter/salt decoder runs on the generated string. Printable/tag/length/determinism parts are the C13 queries (success branch) and the default-prefix query of C18.",
-    "functions": ["crypt_gensalt_rn", "gensalt_*_rn", "get_hashfn", "check_badsalt_chars", "crypt_{md5crypt,nt,bigcrypt,bsdicrypt,sunmd5,sha256crypt,sha512crypt,sha1crypt,yescrypt,scrypt,gost_yescrypt}_rn", "yescrypt_r", "decode64", "decode64_uint32"],
+    "functions": ["crypt_gensalt_rn", "gensalt_*_rn", "get_hashfn", "check_badsalt_chars", "crypt_{md5crypt,nt,bigcrypt,bsdicrypt,sunmd5,sha256crypt,sha512crypt,sha1crypt,yescrypt,scrypt}_rn", "BF_crypt", "yescrypt_r", "decode64", "decode64_uint32"],
     "bounds": {"count": "all values", "random bytes": "16 (sha1crypt 20; yescrypt family also 70 to cross the 64-byte clamp)", "phrase": "<= 4 bytes"},
-    "outside": ["yescrypt, scrypt, gost-yescrypt composition in the quick tier (the real yescrypt_r decoder after the encoder exhausts 12 GB; attempted in the thorough tier only, and seed C10-m1 - nrbytes clamp 86 - is detected only there if it completes)", "bcrypt: BF_crypt has no kernel boundary (setting validation and Eksblowfish are one function); seed C10-m2 (cost digit 9 rejected by crypt) is therefore not detected", "crypt_gensalt / crypt_gensalt_ra wrappers (one-line forwarders; C14 covers _ra)"],
+    "outside": ["gost-yescrypt composition (its method body needs a 2 KB scratch object, with which the query exhausts 12 GB; its gensalt is yescrypt's plus a one-character shift, checked in C11-C13)", "bcrypt's Eksblowfish core (cut after one iteration per loop; validation and formatting of BF_crypt are real)", "crypt_gensalt / crypt_gensalt_ra wrappers (one-line forwarders; C14 covers _ra)"],
     "assumptions": ["havoc kernels; stretch loops cut after 2 iterations"],
     "trusted": [],
     "claim": "For every count and every random-byte content, a setting that crypt_gensalt_rn returns is accepted by the real parser of the same method and reproduced as the prefix of the hash (SAT-decided composition of generator and parser).",
@@ -30,7 +30,6 @@ COMP = [
     ("yescrypt", "$y$", "yescrypt", 16, 40, []),
     ("yescrypt-70", "$y$", "yescrypt", 70, 110, []),
     ("scrypt", "$7$", "scrypt", 16, 44, []),
-    ("gost_yescrypt", "$gy$", "gost_yescrypt", 16, 44, []),
 ]
 QUICK = ["descrypt", "bsdicrypt", "md5crypt", "nt", "sunmd5", "yescrypt", "yescrypt-70", "scrypt"]
 
